@@ -51,11 +51,23 @@ theorem proxyLookup_spec {kw : Option String} {member : String} {l : List Iface}
         obtain ⟨h1, h2⟩ := ih h
         exact ⟨List.mem_cons_of_mem _ h1, h2⟩
 
-/-- The proxy's interface list agrees with the exported object: every interface the proxy lists is the first
-interface of that name the object exports (`getInterfaces()` order).  An explicit proxy declared like the
-exporter and - by C15's round trip - an introspected proxy satisfy it. -/
+/-- The interface `i` a proxy holds is, as far as methods go, the same definition as the first interface of that
+name the object exports (`getInterfaces()` order): same name, and every method name looks up the same
+declaration (name, `sigIn`, `sigOut`, `nargs`, `nret`) - dicts compared as finite maps, as C15's `SameDefinition`
+does (the XML lists methods in sorted order). -/
+def Iface.AgreesIn (i : Iface) (o : ExpObj) : Prop :=
+  ∃ d, o.ifaces.find? (fun x => x.name == i.name) = some d ∧ d.name = i.name ∧ ∀ n, d.method? n = i.method? n
+
+/-- The proxy's interface list agrees with the exported object: every interface it lists `AgreesIn` the object.
+An explicit proxy declared like the exporter satisfies it; an introspected proxy satisfies it for the object's
+own interfaces by C15's round trip (`Proofs/Net/Introspected.lean`). -/
 def Proxy.AgreesWith (px : Proxy) (o : ExpObj) : Prop :=
-  ∀ i, i ∈ px.ifaces → o.ifaces.find? (fun x => x.name == i.name) = some i
+  ∀ i, i ∈ px.ifaces → i.AgreesIn o
+
+/-- an interface that IS the first of its name at the exporter agrees -/
+theorem Iface.agreesIn_of_find {i : Iface} {o : ExpObj}
+    (h : o.ifaces.find? (fun x => x.name == i.name) = some i) : i.AgreesIn o :=
+  ⟨i, h, rfl, fun _ => rfl⟩
 
 /-- `(interface, member)` is not one of the three pairs `handleMethodCallMessage` answers itself. -/
 def NotBuiltin (iname member : String) : Prop :=
@@ -71,7 +83,32 @@ theorem proxyResolve_ok {px : Proxy} {kw : Option String} {member : String} {arg
             sig := m.sigIn, args := args, retSig := some m.sigOut } := by
   simp [proxyResolve, hl, hn]
 
-/-- **The connecting lemma.**  An agreeing proxy's call is accepted for the method the proxy selected. -/
+/-- **The connecting lemma.**  A call for `(i, m)` - an interface the proxy holds that agrees with the exported
+object - is accepted for the exporter's own definition `d` of that interface and the same method `m`. -/
+theorem agreeing_iface_check (w : World V) {dest : Nat} {path : String} {o : ExpObj} {member : String}
+    {i : Iface} {m : MethodDecl} {f : Func}
+    (hobj : lookupObj path (w.exports dest) = some o)
+    (hag : i.AgreesIn o)
+    (hmeth : i.method? member = some m)
+    (hname : i.name ≠ "")
+    (hnb : NotBuiltin i.name member)
+    (himpl : o.resolveImpl i.name member = some f) :
+    ∃ d, d.name = i.name ∧ check w dest path (some i.name) member m.sigIn = .run d m f := by
+  obtain ⟨h1, h2, h3⟩ := hnb
+  obtain ⟨d, hfind, hdn, hdm⟩ := hag
+  refine ⟨d, hdn, ?_⟩
+  have hmeth' : d.method? member = some m := by rw [hdm]; exact hmeth
+  have himpl' : o.resolveImpl d.name member = some f := by rw [hdn]; exact himpl
+  unfold check
+  have e1 : ¬ (some i.name = some Gen.Dispatch.peerPair.1 ∧ member = Gen.Dispatch.peerPair.2) := by
+    rintro ⟨a, b⟩; exact h1 ⟨by injection a, b⟩
+  have e2 : ¬ (some i.name = some Gen.Dispatch.introspectPair.1 ∧ member = Gen.Dispatch.introspectPair.2) := by
+    rintro ⟨a, b⟩; exact h2 ⟨by injection a, b⟩
+  have e3 : ¬ (some i.name = some Gen.Dispatch.managedPair.1 ∧ member = Gen.Dispatch.managedPair.2) := by
+    rintro ⟨a, b⟩; exact h3 ⟨by injection a, b⟩
+  simp only [e1, e2, e3, if_false, hobj, findIface_named i.name member hname, hfind, Option.bind_some, hmeth',
+    Option.map_some, ne_eq, not_true_eq_false, himpl']
+
 theorem agreeing_proxy_check (w : World V) {px : Proxy} {o : ExpObj} {kw : Option String} {member : String}
     {i : Iface} {m : MethodDecl} {f : Func}
     (hobj : lookupObj px.path (w.exports px.dest) = some o)
@@ -80,19 +117,9 @@ theorem agreeing_proxy_check (w : World V) {px : Proxy} {o : ExpObj} {kw : Optio
     (hname : i.name ≠ "")
     (hnb : NotBuiltin i.name member)
     (himpl : o.resolveImpl i.name member = some f) :
-    check w px.dest px.path (some i.name) member m.sigIn = .run i m f := by
+    ∃ d, d.name = i.name ∧ check w px.dest px.path (some i.name) member m.sigIn = .run d m f := by
   obtain ⟨hmem, hmeth⟩ := proxyLookup_spec hl
-  obtain ⟨h1, h2, h3⟩ := hnb
-  have hfind := hag i hmem
-  unfold check
-  have e1 : ¬ (some i.name = some Gen.Dispatch.peerPair.1 ∧ member = Gen.Dispatch.peerPair.2) := by
-    rintro ⟨a, b⟩; exact h1 ⟨by injection a, b⟩
-  have e2 : ¬ (some i.name = some Gen.Dispatch.introspectPair.1 ∧ member = Gen.Dispatch.introspectPair.2) := by
-    rintro ⟨a, b⟩; exact h2 ⟨by injection a, b⟩
-  have e3 : ¬ (some i.name = some Gen.Dispatch.managedPair.1 ∧ member = Gen.Dispatch.managedPair.2) := by
-    rintro ⟨a, b⟩; exact h3 ⟨by injection a, b⟩
-  simp only [e1, e2, e3, if_false, hobj, findIface_named i.name member hname, hfind, Option.bind_some, hmeth,
-    Option.map_some, ne_eq, not_true_eq_false, himpl]
+  exact agreeing_iface_check w hobj (hag i hmem) hmeth hname hnb himpl
 
 /-! ### provenance of the logs -/
 
